@@ -1,5 +1,6 @@
 import Proofs.C01Mux
 import Proofs.C01Monitor
+import Proofs.C01Rx
 /-!
 # C01 — every response reaches the request that caused it, and only that one (property theorems)
 
@@ -12,22 +13,32 @@ of callers, any answer order incl. never, any mix of timeouts / cancellations / 
 namespace C01
 open Mux
 
-/-- whenever a caller takes a response from its rendezvous, it is the response to its own request -/
+/-- whenever a caller takes a response from its rendezvous, it is the response to its own request … -/
 theorem C01_routing (cap : Nat) (as : List Act) (st : St) (h : run (init cap) as = some st)
-    (d c : Nat) (hr : st.pc d = .done (.resp c)) : c = d :=
-  (inv_run as _ st (inv_init cap) h).resp_origin d c hr
+    (d c k w : Nat) (hr : st.pc d = .done (.resp c k w)) : c = d :=
+  (inv_run as _ st (inv_init cap) h).resp_origin d c k w hr
+
+/-- … and what it decodes — kind (opcode, result kind / error code, header flags) and token content — is
+    what the server answered to THAT request, whatever mix of kinds the server uses for the requests in
+    flight and whatever other frames (events, frames for unknown ids) it interleaves -/
+theorem C01_routing_content (cap : Nat) (as : List Act) (st : St) (h : run (init cap) as = some st)
+    (d c k w : Nat) (hr : st.pc d = .done (.resp c k w)) : st.sent d = some (k, w) := by
+  have inv := inv_run as _ st (inv_init cap) h
+  have := inv.resp_origin d c k w hr
+  subst this
+  exact inv.resp_sent c c k w hr
 
 /-- while a request (or its unconsumed response) is outstanding on id `s`, `s` stays reserved for the
     call that sent it — also after that call timed out or was cancelled — … -/
 theorem C01_no_reuse_while_late (cap : Nat) (as : List Act) (st : St) (h : run (init cap) as = some st)
-    (s c : Nat) (hw : st.wire s = .pending c ∨ st.wire s = .answered c) : st.owner s = some c := by
+    (s c : Nat) (hw : st.wire s = .pending c ∨ ∃ k w, st.wire s = .answered c k w) : st.owner s = some c := by
   have := (inv_run as _ st (inv_init cap) h).wire_own s
   grind
 
 /-- … hence the allocator cannot hand `s` to another request until the late response has arrived -/
 theorem C01_late_response_not_misdelivered (cap : Nat) (as : List Act) (st : St)
     (h : run (init cap) as = some st) (s c c' : Nat)
-    (hw : st.wire s = .pending c ∨ st.wire s = .answered c) : step st (.acquire c' s) = none := by
+    (hw : st.wire s = .pending c ∨ ∃ k w, st.wire s = .answered c k w) : step st (.acquire c' s) = none := by
   have := C01_no_reuse_while_late cap as st h s c hw
   simp [step, this]
 
@@ -51,21 +62,134 @@ theorem C01_monitor_exact (cap : Nat) (as : List Act) (st : St) (h : run (init c
     (Mon.run (Mon.init cap) (trace (init cap) as)).lookup s = some (t, false) ↔ st.wire s = .pending t :=
   (sim_run as (init cap) st (Mon.init cap) (inv_init cap) (sim_init cap) h).pend s t
 
+/-- … and so is its record of what the server answered to which request (kind and token content) -/
+theorem C01_monitor_answers_exact (cap : Nat) (as : List Act) (st : St) (h : run (init cap) as = some st)
+    (t : Nat) (p : Nat × Nat) :
+    (Mon.run (Mon.init cap) (trace (init cap) as)).answer t = some p ↔ st.sent t = some p :=
+  (sim_run as (init cap) st (Mon.init cap) (inv_init cap) (sim_init cap) h).ans t p
+
 /-- non-vacuity: a history with a timeout, a reuse attempt and a late reply — caller 1 times out on id 5,
     caller 2 cannot get id 5, the late answer for caller 1 is released, then caller 2 gets id 5 and its
     own response. -/
 def lateReplyHistory : List Act :=
-  [.acquire 1 5, .wrote 1, .timeout 1, .acquire 2 6, .wrote 2, .answer 5, .deliver 5, .acquire 3 5, .wrote 3,
-   .answer 5, .deliver 5, .answer 6, .deliver 6]
+  [.acquire 1 5, .wrote 1, .timeout 1, .acquire 2 6, .wrote 2, .answer 5 0 1, .event, .deliver 5, .acquire 3 5, .wrote 3,
+   .stray 63, .answer 5 2 3, .deliver 5, .answer 6 17 2, .deliver 6]
 
 example : ∃ st, run (init 128) lateReplyHistory = some st ∧
-    st.pc 1 = .done .timeout ∧ st.pc 2 = .done (.resp 2) ∧ st.pc 3 = .done (.resp 3) ∧ st.owner 5 = none := by
+    st.pc 1 = .done .timeout ∧ st.pc 2 = .done (.resp 2 17 2) ∧ st.pc 3 = .done (.resp 3 2 3) ∧ st.owner 5 = none := by
   refine ⟨_, rfl, ?_, ?_, ?_, ?_⟩ <;> decide
 
 example : trace (init 128) lateReplyHistory =
-    [.req 5 1, .req 6 2, .resp 5 1, .req 5 3, .resp 5 3, .got 3 3, .resp 6 2, .got 2 2] := by decide
+    [.req 5 1, .req 6 2, .resp 5 1 0 1, .event, .req 5 3, .stray 63, .resp 5 3 2 3, .got 3 2 3, .resp 6 2 17 2, .got 2 17 2] := by
+  decide
+
+/-- the monitor has teeth: two requests in flight answered with different kinds, the caller of the first
+    reports the kind of the second (a frame header shared between two frames) — rejected; so is a response
+    reported for a request the server never answered, and a second response for one call -/
+example : (Mon.run (Mon.init 128) [.req 5 1, .req 6 2, .resp 5 1 0 1, .resp 6 2 2 2, .got 1 2 1]).bad.isSome = true := by
+  decide
+example : (Mon.run (Mon.init 128) [.req 5 1, .req 6 2, .resp 5 1 0 1, .got 2 0 2]).bad.isSome = true := by decide
+example : (Mon.run (Mon.init 128) [.req 5 1, .resp 5 1 0 1, .got 1 0 1, .got 1 0 1]).bad.isSome = true := by decide
+example : (Mon.run (Mon.init 128) [.req 5 1, .req 6 2, .resp 5 1 0 1, .resp 6 2 2 2, .got 2 2 2, .got 1 0 1]).bad = none := by
+  decide
 
 example : (do let st ← run (init 128) [.acquire 1 5, .wrote 1, .timeout 1]; step st (.acquire 2 5)).isNone = true := by
   decide
+
+/-! ## The receive loop at byte level (`Model/MuxRx.lean`)
+
+The machine above hands "the response for id s" to the call registered for s. That presupposes that the
+receive loop cuts the server's byte stream into the frames the server sent, whatever the write boundaries
+(several frames in one write, one frame in several) and whatever the pauses (shorter or longer than the
+read deadline), and that each call finds ITS frame's header and body in what it is handed. -/
+
+open Rx in
+/-- Conn.Read: what it returns is a prefix of the byte stream, its count is the number of bytes it put
+    into `p` over ALL its attempts (never more than asked), all of them when it reports success, and the
+    socket is left exactly behind them -/
+theorem C01_rx_read_exact (dl : Bool) (src : Src) (k : Nat) :
+    (connRead dl maxAttempts src k).1 ++ bytes (connRead dl maxAttempts src k).2.2 = bytes src ∧
+    (connRead dl maxAttempts src k).1.length ≤ k ∧
+    ((connRead dl maxAttempts src k).2.1 = .ok → (connRead dl maxAttempts src k).1.length = k) :=
+  connRead_prefix dl maxAttempts src k
+
+open Rx in
+/-- with fewer than five deadline expiries before the k-th byte (or no deadline at all) it returns exactly the
+    next k bytes and leaves the socket behind them -/
+theorem C01_rx_read_ok (dl : Bool) (src : Src) (k : Nat) (h : k ≤ (bytes src).length)
+    (he : dl = true → expiriesBefore k src < maxAttempts) :
+    connRead dl maxAttempts src k = ((bytes src).take k, .ok, dropBytes k src) :=
+  connRead_calm dl src k h he
+
+/- FULL property (does NOT hold for the code as it is, see `C01_rx_cex_stalled_body`):
+     ∀ frames `fs` well-formed for the protocol, ∀ sockets `src` carrying exactly their encoding (cut and
+     delayed in any way), `recv` hands every frame, own header and own body, to the call registered for its
+     stream id and never anything else to any call.
+   Proved with the excluding hypothesis `Calm`: fewer than five read deadlines expire while any ONE frame
+   body is awaited (any number may expire while a header is awaited, and between frames). -/
+open Rx in
+theorem C01_rx_sync_partial (proto : Nat) (hp1 : 1 ≤ proto) (hp5 : proto ≤ 5) (dl : Bool) (fs : List Frame)
+    (cs : Calls) (src : Src) (hwf : ∀ f ∈ fs, f.wf proto) (hb : bytes src = encodeAll proto fs)
+    (hcalm : dl = true → Calm proto fs src) :
+    recv proto dl cs src = ⟨dispatch cs fs, .eof⟩ := by
+  apply recvLoop_sync proto hp1 hp5 dl fs _ cs src _ hwf hb hcalm
+  -- enough fuel: every frame has at least 8 bytes
+  have hlen : ∀ (gs : List Frame), gs.length ≤ (encodeAll proto gs).length := by
+    intro gs
+    induction gs with
+    | nil => simp [encodeAll]
+    | cons g gs ih =>
+      simp only [encodeAll, List.flatMap_cons, List.length_append, List.length_cons] at ih ⊢
+      have := encode_length proto g
+      have : 8 ≤ hdrLen proto := by simp [hdrLen]; split <;> omega
+      omega
+  have := hlen fs
+  have := bytes_length_le src
+  rw [hb] at this
+  omega
+
+open Rx in
+/-- without a read deadline (Config.Timeout = 0) nothing is excluded -/
+theorem C01_rx_sync_no_deadline (proto : Nat) (hp1 : 1 ≤ proto) (hp5 : proto ≤ 5) (fs : List Frame)
+    (cs : Calls) (src : Src) (hwf : ∀ f ∈ fs, f.wf proto) (hb : bytes src = encodeAll proto fs) :
+    recv proto false cs src = ⟨dispatch cs fs, .eof⟩ :=
+  C01_rx_sync_partial proto hp1 hp5 false fs cs src hwf hb (by simp)
+
+/-! Counterexample (kernel-checked; also the replay input `rxk 4 1 1,2 - 840000010800…` for the real
+    code): the server answers the request on stream 1 with ONE well-formed frame, whose 11-byte body stalls
+    after its first byte for five read deadlines. Conn.Read gives up; readFrame wraps the timeout into a
+    plain error, so recv does not close the connection but hands the error to call 1 and goes on reading
+    "headers" from the rest of that body. The rest happens to look like a frame for stream 2: the call
+    waiting on stream 2 — to which the server has sent nothing — is handed bytes of the answer to call 1. -/
+namespace Cex
+open Rx
+def inner : Frame := ⟨⟨0x84, 0, 2, 8, 1⟩, [0xBB]⟩
+def answer1 : Frame := ⟨⟨0x84, 0, 1, 8, 11⟩, 0xAA :: encode 4 inner⟩
+def calls : Calls := [(1, true), (2, true)]
+def socket : Src :=
+  (encodeHdr 4 answer1.h).map some ++ [some 0xAA, none, none, none, none, none] ++ (encode 4 inner).map some
+end Cex
+
+open Rx in
+set_option maxRecDepth 8192 in
+theorem C01_rx_cex_stalled_body :
+    Cex.answer1.wf 4 ∧ bytes Cex.socket = encodeAll 4 [Cex.answer1] ∧
+    recv 4 true Cex.calls Cex.socket =
+      ⟨[⟨.call, .gaveUp, Cex.answer1.h, []⟩, ⟨.call, .ok, Cex.inner.h, [0xBB]⟩], .eof⟩ ∧
+    recv 4 true Cex.calls Cex.socket ≠ ⟨dispatch Cex.calls [Cex.answer1], .eof⟩ := by
+  refine ⟨by decide, by decide, by decide, by decide⟩
+
+/-- non-vacuity of `C01_rx_sync_partial`: two frames in one write, the second cut inside its header and
+    inside its body with four expiries in the body, an event frame in between -/
+example : ∃ fs src, (∀ f ∈ fs, Rx.Frame.wf 3 f) ∧ Rx.bytes src = Rx.encodeAll 3 fs ∧ Rx.Calm 3 fs src ∧
+    (Rx.recv 3 true [(5, true), (9, false)] src).recs.length = 3 := by
+  refine ⟨[⟨⟨0x83, 0, 5, 8, 2⟩, [1, 2]⟩, ⟨⟨0x83, 0, -1, 12, 1⟩, [7]⟩, ⟨⟨0x83, 2, 9, 0, 3⟩, [4, 5, 6]⟩],
+    (Rx.encode 3 ⟨⟨0x83, 0, 5, 8, 2⟩, [1, 2]⟩ ++ Rx.encode 3 ⟨⟨0x83, 0, -1, 12, 1⟩, [7]⟩).map some ++
+      [some 0x83, none, none, none, none, none, none, some 2, some 0, some 9, some 0, some 0, some 0, some 0, some 3,
+       none, some 4, none, none, some 5, none, some 6, none], ?_, ?_, ?_, ?_⟩
+  · decide
+  · decide
+  · simp only [Rx.Calm]; decide
+  · decide
 
 end C01
